@@ -382,8 +382,13 @@ pub mod ovr {
 // ---------------------------------------------------------------------------------------------
 // operation alphabets
 
+/// 999 stands for "one coin of amount zero" (legal to attach, refused by the chain's bank)
 fn atom(n: u128) -> Vec<Coin> {
-    coins(n, "atom")
+    if n == 999 {
+        coins(0, "atom")
+    } else {
+        coins(n, "atom")
+    }
 }
 
 #[derive(Clone, Debug)]
@@ -413,6 +418,9 @@ fn alphabet(tier: &str) -> Vec<Op> {
         Op::Exec { m: 0, arg: 2, funds: 3, stranger: false, inst: 1 },
         Op::Exec { m: 0, arg: 2, funds: 3, stranger: true, inst: 0 },
         Op::Exec { m: 1, arg: 4, funds: 0, stranger: true, inst: 1 },
+        Op::Exec { m: 0, arg: 6, funds: 999, stranger: false, inst: 0 },
+        Op::Inst { v: 3, label: None, admin: true, funds: 0, stranger: false, salt: Some(b"") },
+        Op::Inst { v: 3, label: None, admin: false, funds: 999, stranger: false, salt: None },
         Op::Query { m: 0, arg: 0, inst: 0 },
         Op::Query { m: 1, arg: 13, inst: 1 },
         Op::Sudo { m: 0, arg: 3, inst: 0 },
